@@ -54,6 +54,10 @@ CHECKS.update({
    text="Runtime monitoring: programs with absolute references relocated to 12 base-address classes, built once with the base known at init and once relocated afterwards; our evaluator walks the flattened image (abs fields, rel32 sites, address-table slots) and compares designated targets with expected ones; JitRuntime::add images are compared with an independent relocation and the code is called natively, reaching C functions > 2 GiB away through .addrtab.",
    design_ref="DESIGN.md section 2, C04", note="Native calls on x86-64 only; other architectures evaluated on the image.",
    technique="sanitizer build + relocation evaluator monitor + native calls through the address table"),
+ "C05": dict(category="exploration",
+   text="Runtime monitoring of the Compiler's register allocator: a seeded generator produces IR programs (all CFG shapes up to 5 body blocks in the thorough tier; loops, jump tables, calls through several signatures, GP/vector/mask values up to ~160 simultaneously live, fixed-register instructions, partial-register and high-byte operands, memory-operand substitution candidates, AVX-512) which are emitted through x86::Compiler (x86-64: executed natively in forked children on 16 inputs each and compared with a reference interpreter that tracks byte-level definedness; x86-32: compiled, decoded with objdump, finalize errors judged) and a64::Compiler (compiled, decoded with llvm-mc; register-list programs checked by symbolic dataflow over the disassembly); the allocator itself runs under ASan+UBSan; fixed probes target each allocator idiom (same-register hints, immediate idioms, reg->mem substitution, consecutive registers, unreachable blocks); failing programs are shrunk.",
+   design_ref="DESIGN.md section 2, C05", note="x86-32 and AArch64 output is never executed (no such CPU here): compile-only plus symbolic list dataflow, stated in the evidence.",
+   technique="native-execution differential monitor (JIT code vs reference interpreter) + sanitizer build + symbolic dataflow over disassembly"),
  "C07": dict(category="exploration",
    text="Runtime monitoring: 2.8e5 (quick) / 4e6 (thorough) random and boundary FuncFrames; prolog + generated monitor body + epilog are executed natively on x86-64 (register/canary trampoline), on x86-32 through a compatibility-mode far-call gate, and AArch64 prolog/epilog are interpreted symbolically from llvm-mc's disassembly; preserved registers (ABI documents, not asmjit tables), SP, alignment, canaries, stack-argument reads and pairwise disjointness of the reported areas are checked.",
    design_ref="DESIGN.md section 2, C07", note="AArch64 is not executed (symbolic SP/slot tracking); light-call/custom conventions are judged against their own preserved masks; low 128 bits of vector registers compared.",
